@@ -303,6 +303,9 @@ func (vc *VC) enterLoop(li *loopInfo, b *ssa.BasicBlock, preds []*ssa.BasicBlock
 	if li.modAll {
 		vc.havocAll(st)
 	} else {
+		old := st.nextId
+		st.nextId = vc.freshConst("nextId", "Int")
+		vc.addFact("assume", sx("<=", old, st.nextId))
 		for _, k := range sortedKeys(li.mods) {
 			if k == "#map" {
 				for _, hk := range sortedKeys(vc.heapSort) {
@@ -314,9 +317,6 @@ func (vc *VC) enterLoop(li *loopInfo, b *ssa.BasicBlock, preds []*ssa.BasicBlock
 			}
 			vc.havocKey(st, k)
 		}
-		old := st.nextId
-		st.nextId = vc.freshConst("nextId", "Int")
-		vc.addFact("assume", sx("<=", old, st.nextId))
 	}
 	// a fresh reach for "some iteration"
 	r := vc.declare(fmt.Sprintf("reach_b%d_iter", b.Index), "Bool")
